@@ -353,6 +353,17 @@ func realiseArr(v V, r *core.Rand, rep Rep) any {
 		}
 		return out
 	}
+	if rep.Typed && r.P(1, 6) {
+		// a fixed-size array of interfaces: [N]any
+		g := generic().([]any)
+		av := reflect.New(reflect.ArrayOf(len(g), reflect.TypeOf((*any)(nil)).Elem())).Elem()
+		for i, e := range g {
+			if e != nil {
+				av.Index(i).Set(reflect.ValueOf(e))
+			}
+		}
+		return av.Interface()
+	}
 	if !rep.Typed || r.P(1, 3) {
 		return generic()
 	}
